@@ -14,7 +14,7 @@ RULE = ('laws: a generated tree (dict with str/int keys, list, tuple, ndarray, s
         'node, fresh dict key, list append, fresh multi-level suffix, ndarray element, SELF); views: leaf enumeration, '
         'multi-key reads, Literal/SELF/SKIP keys, key_paths, apply(map_fn), copy_and_update; non-trivial = tree depth >= 2 '
         'and the (first) path shares a proper prefix with another leaf; distinct = distinct canonical case JSON'
-        '; also: shared sub-containers, plain "SELF"/"SKIP" and tuple-typed dict keys, array views, repeated paths in pair updates (list and generator), wide trees of 33..70 rows')
+        '; also: shared sub-containers, plain "SELF"/"SKIP" and tuple-typed dict keys, array views, repeated paths in pair updates (list and generator), wide trees of 33..70 rows, sets made through the view a previous set returned, unsettable paths (append position followed by an impossible component)')
 ASSUMPTIONS = [
     'reference = vlib/oracles/tree_ref.py (copy-on-write set, DFS leaf enumeration) written from the TreeMapView docstrings',
     'root is a container; dict keys may be the plain strings "SELF"/"SKIP" (the reserved keys are the Key.SELF / Key.SKIP objects); '
@@ -65,6 +65,7 @@ def run_laws(case):
     tr.share(model, *case['share'])
   nontrivial = False
   classes = set()
+  chain, cur_view = case.get('chain'), None     # chain: every set is made through the view the previous set returned
   for oi, op in enumerate(case['ops']):
     path = tr.npath(op['path'])
     value = tr.decode(op['value'])
@@ -74,13 +75,29 @@ def run_laws(case):
     if len(path) == 1 and op.get('raw') and path[0][0] == 'k' and not isinstance(path[0][1], tuple):
       key = path[0][1]   # a bare key instead of a Key path
     what = f'op {oi}: TreeMapView({snap!r}).copy_and_set({key!r}, {value!r})'
-    view = tree.TreeMapView(cur)
+    view = cur_view if chain and cur_view is not None else tree.TreeMapView(cur)
+    if chain and cur_view is not None:
+      what = f'op {oi}: (view returned by op {oi - 1}, data {snap!r}).copy_and_set({key!r}, {value!r})'
+      classes.add('set-through-derived-view')
+    if op.get('bad'):
+      # a path that cannot be set: whatever the outcome (an error, normally), the viewed data stays as it was
+      classes.add('unsettable-path')
+      try:
+        view.copy_and_set(key, value)
+        outcome = 'returned'
+      except Exception as e:  # pylint: disable=broad-exception-caught
+        outcome = f'raised {type(e).__name__}'
+      check(tr.deep_equal(cur, snap), 'original-mutated', f'{what} {outcome}: original is now {cur!r}')
+      if outcome == 'returned':
+        break
+      continue
     exists = True
     try:
       old = tr.ref_get(cur, path)
     except (KeyError, IndexError):
       exists = False
-    new = _guard(lambda: view.copy_and_set(key, value).data, what)
+    new_view = _guard(lambda: view.copy_and_set(key, value), what)
+    new = new_view.data
     # (1) the viewed data is unchanged at every depth
     check(tr.deep_equal(cur, snap), 'original-mutated', f'{what}: original is now {cur!r}')
     # (2) agrees with the reference copy-on-write set
@@ -105,7 +122,7 @@ def run_laws(case):
       classes.add('index-component')
     if not path:
       classes.add('SELF')
-    cur, model = new, want
+    cur, model, cur_view = new, want, new_view
   if shared:
     classes.add('shared-subtree')
   return {'nontrivial': nontrivial, 'classes': sorted(classes)}
@@ -170,6 +187,16 @@ def strat_laws(tier):
       tr.share(model, *share)
     ops = []
     for _ in range(draw(st.integers(1, 6))):
+      if draw(st.integers(0, 5)) == 0:
+        # a path that starts like a valid one (incl. an append position) and then cannot be completed
+        seqs = [p for p, node in tr.nodes(model) if isinstance(node, (list, tuple))]
+        if seqs:
+          p = draw(st.sampled_from(seqs))
+          n = len(tr.ref_get(model, p)) if p else len(model)
+          tail = draw(st.sampled_from([[('i', n), ('i', 1)], [('i', n), ('i', 2)], [('i', n + 1)], [('i', n), ('k', 'a'), ('i', 1)],
+                                       [('i', -n - 1)], [('i', n), ('i', 0), ('i', 1)]]))
+          ops.append({'path': [list(c) for c in tuple(p) + tuple(tail)], 'value': {'v': 1}, 'raw': False, 'bad': True})
+          continue
       kind, path = draw(_path_for(model))
       if kind == 'array-elem':
         vj = {'v': draw(st.integers(10, 20))}
@@ -179,7 +206,7 @@ def strat_laws(tier):
       model = tr.ref_set(model, tr.npath(path), tr.decode(vj))
       if not tr.is_container(model):
         break
-    return {'tree': tj, 'ops': ops, 'share': share}
+    return {'tree': tj, 'ops': ops, 'share': share, 'chain': draw(st.booleans())}
   return s()
 
 
